@@ -407,14 +407,35 @@ def run_c06(tier, budget, rnd, res, script, post):
     ord_max = 6 if tier == "quick" else 7
     per_n = 150 if tier == "quick" else 1200
     kinds = ["random", "random", "random", "null", "additive", "unit", "unanimity"]
-    for n in range(1, nmax + 1):
+    # a large player count comes FIRST and out of ascending order (12 before the small ones; thorough also 10 → 13 → 11):
+    # per-process tables that grow with n (factorials, memoised structures) are then extended by several entries at once
+    big = [12] if tier == "quick" else [12, 10, 13, 11]
+    for n in big + list(range(1, nmax + 1)):
         N = 2 ** n
-        count = per_n if n <= 5 else (per_n // 4 if n == 6 else per_n // 20)
+        count = (1 if tier == "quick" else 3) if n > nmax else (per_n if n <= 5 else (per_n // 4 if n == 6 else per_n // 20))
         for t in range(count):
             if not budget.ok():
                 res.notes.append(f"C06: budget exhausted at n={n} case {t}")
                 return
             kind = rnd.choice(kinds)
+            if n > nmax:
+                # beyond the exact range float64 cannot hold every intermediate (coefficients up to (n−1)!): small integer
+                # values, the real code only, exact-Fraction oracle with relative tolerance 1e-9 (no model line)
+                v = [Fraction(0)] + [Fraction(rnd.randint(-8, 8)) for _ in range(N - 1)]
+                replay = {"n": n, "values": [rs(x) for x in v], "note": "large-n tolerance case"}
+                r_all = call(lambda: list(compute_shapley_value(real_complete(n, v))))
+                res.evaluations += 1
+                res.count(f"C06:n={n}(tolerance)")
+                if r_all[0] != "ok":
+                    res.violation("Shapley value raised on a complete game", dict(replay, outcome=repr(r_all)), key="C06:defined")
+                    continue
+                ex = shapley_exact(n, v)
+                got = [frac(x) for x in r_all[1]]
+                scale = max(1, max(abs(x) for x in ex))
+                if len(got) != n or any(abs(a - b) > Fraction(1, 10 ** 9) * scale for a, b in zip(got, ex)):
+                    res.violation("Shapley value ≠ Σ_S (v(S∪i) − v(S)) / (n·C(n−1,|S|)) beyond float rounding (large player count)",
+                                  dict(replay, reported=[float(x) for x in got], expected=[float(x) for x in ex]), key="C06:orderings")
+                continue
             v = gen_game(rnd, n, kind)
             replay = {"n": n, "values": [rs(x) for x in v]}
             g = real_complete(n, v)
